@@ -74,7 +74,8 @@ func runC01(c *ShardCtx) {
 		hy := []*peg.Expr{
 			mk("[ab-d-z]", false, "a", "b-d", "-", "z"), mk("[-a-c]", false, "-", "a-c"), mk("[a-c-]", false, "a-c", "-"), mk("[a-c-e]", false, "a-c", "-", "e"),
 			mk(`[a\-c]`, false, "a", "-", "c"), mk("[_a-c-.]", false, "_", "a-c", "-", "."), mk("[+0-9-e]", false, "+", "0-9", "-", "e"), mk("[^ab-d-z]", true, "a", "b-d", "-", "z"),
-			mk("[a-c-e-g]", false, "a-c", "-", "e-g"), mk("[--0]", false, "--0"), mk("[a--]", false, "a", "-", "-"),
+			mk("[a-c-e-g]", false, "a-c", "-", "e-g"), mk("[--0]", false, "--0"), mk("[a--]", false, "a--"), // (by the grammar's own ClassCharRange rule this is the DESCENDING range a..-, which no rune satisfies)
+			mk("[a-]", false, "a", "-"), mk("[-]", false, "-"), mk("[--]", false, "-", "-"), mk("[---]", false, "---"),
 		}
 		var ins [][]byte
 		for _, r := range "abcdefgz-_.+,/059" {
